@@ -8,6 +8,7 @@ import (
 	"github.com/btcsuite/btcd/btcec/v2"
 	"github.com/btcsuite/btcd/btcutil"
 	"github.com/btcsuite/btcd/btcutil/hdkeychain"
+	"github.com/btcsuite/btcwallet/snacl"
 	"github.com/btcsuite/btcwallet/walletdb"
 
 	"verif/memdb"
@@ -31,6 +32,7 @@ type zzC04World struct {
 	secrets []zzSecret
 	public  []zzSecret
 	scanned int
+	sealScanned int
 	pubPass []byte
 	prvPass []byte
 }
@@ -101,6 +103,46 @@ func (w *zzC04World) scan(checkPublic bool) {
 		}
 	}
 	verifrt.Observe("secret", "")
+}
+
+// scanSealed: a secret sealed under a key everybody knows is not encrypted.
+// Every length-prefixed field (and every whole value) of every new write-log
+// record is offered to the all-zero CryptoKey; if it opens, the plaintext is
+// matched against the secrets to name what was exposed.
+func (w *zzC04World) scanSealed() {
+	var zeroKey snacl.CryptoKey
+	log := w.db.Log
+	try := func(ct []byte) {
+		if len(ct) < snacl.NonceSize+snacl.Overhead {
+			return
+		}
+		pt, err := zeroKey.Decrypt(ct)
+		if err != nil {
+			return
+		}
+		name := "unidentified plaintext of " + string(rune('0'+len(pt)/10)) + string(rune('0'+len(pt)%10)) + " bytes"
+		for _, s := range w.secrets {
+			if zzContains(pt, s.b) {
+				name = s.name
+			}
+		}
+		verifrt.Observe("sealed-under-zero-key", name)
+		verifrt.Assert(false, "c04-secret-sealed-under-the-all-zero-key")
+		verifrt.Observe("sealed-under-zero-key", "")
+	}
+	for ; w.sealScanned < len(log); w.sealScanned++ {
+		v := log[w.sealScanned].Value
+		try(v)
+		for off := 0; off+4 <= len(v); off++ {
+			if !verifrt.IsConcrete(v[off : off+4]) {
+				continue // a length prefix is never ciphertext
+			}
+			n := int(uint32(v[off]) | uint32(v[off+1])<<8 | uint32(v[off+2])<<16 | uint32(v[off+3])<<24)
+			if n >= snacl.NonceSize+snacl.Overhead && off+4+n <= len(v) {
+				try(v[off+4 : off+4+n])
+			}
+		}
+	}
 }
 
 func ZzC04() {
@@ -188,6 +230,7 @@ func ZzC04() {
 		return nil
 	}))
 	w.scan(false)
+	w.scanSealed()
 	verifrt.Reach("imported")
 
 	// a new account: its extended private key is a secret too
@@ -206,6 +249,25 @@ func ZzC04() {
 	}))
 	w.scan(false)
 	verifrt.Reach("passphrase-changed")
+
+	// still unlocked: another private key imported right after the change
+	priv2, _ := btcec.PrivKeyFromBytes([]byte{0x21, 0x22, 0x33, 0x44, 0x55, 0x66, 0x77, 0x88, 0x99, 0xaa, 0xbb, 0xcc, 0xdd, 0xee, 0xff, 0x01,
+		0x11, 0x22, 0x33, 0x44, 0x55, 0x66, 0x77, 0x88, 0x99, 0xaa, 0xbb, 0xcc, 0xdd, 0xee, 0xff, 0x03})
+	wif2, err := btcutil.NewWIF(priv2, w.params, true)
+	zzMust(err)
+	w.addSecret("private key imported after the passphrase change", priv2.Serialize())
+	w.addSecret("private key imported after the passphrase change, WIF", []byte(wif2.String()))
+	verifrt.Assert(!w.mgr.IsLocked(), "c04-still-unlocked-after-change")
+	zzMust(w.update(func(ns walletdb.ReadWriteBucket) error {
+		ma, err := sm.ImportPrivateKey(ns, wif2, bs)
+		if err != nil {
+			return err
+		}
+		issued = append(issued, ma)
+		return nil
+	}))
+	w.scan(false)
+	w.scanSealed()
 
 	// conversion to watching-only
 	zzMust(w.update(func(ns walletdb.ReadWriteBucket) error { return w.mgr.ConvertToWatchingOnly(ns) }))
@@ -241,3 +303,46 @@ func ZzC04() {
 	}))
 	verifrt.Reach("c04-end")
 }
+
+// ZzC04Race: a private key import racing Manager.Lock (the unlock timeout).
+// Whatever the interleaving of their synchronisation operations, the import
+// either fails with a locked error and writes nothing, or stores the key
+// sealed under the real private crypto key - never under the zeroed key that
+// Lock leaves behind.
+func zzC04Race(bound int) {
+	w := &zzC04World{zzMgrWorld: zzNewMgrWorld(zzSeedA)}
+	w.db.LogWrites = true
+	zzMust(w.view(func(ns walletdb.ReadBucket) error { return w.mgr.Unlock(ns, zzPrvPass) }))
+	sm, err := w.mgr.FetchScopedKeyManager(KeyScopeBIP0084)
+	zzMust(err)
+	priv, _ := btcec.PrivKeyFromBytes([]byte{0x31, 0x22, 0x33, 0x44, 0x55, 0x66, 0x77, 0x88, 0x99, 0xaa, 0xbb, 0xcc, 0xdd, 0xee, 0xff, 0x01,
+		0x11, 0x22, 0x33, 0x44, 0x55, 0x66, 0x77, 0x88, 0x99, 0xaa, 0xbb, 0xcc, 0xdd, 0xee, 0xff, 0x04})
+	wif, err := btcutil.NewWIF(priv, w.params, true)
+	zzMust(err)
+	w.addSecret("private key imported while Lock runs", priv.Serialize())
+	w.sealScanned = len(w.db.Log)
+	verifrt.PreemptionBound(bound)
+	var impErr error
+	done := make(chan struct{})
+	go func() {
+		impErr = w.update(func(ns walletdb.ReadWriteBucket) error {
+			_, err := sm.ImportPrivateKey(ns, wif, &BlockStamp{})
+			return err
+		})
+		close(done)
+	}()
+	lockErr := w.mgr.Lock()
+	<-done
+	verifrt.Assert(lockErr == nil, "c04-race-lock-succeeds")
+	if impErr != nil {
+		verifrt.Reach("import-refused")
+		verifrt.Assert(IsError(impErr, ErrLocked), "c04-race-import-fails-only-with-locked")
+	} else {
+		verifrt.Reach("import-succeeded")
+	}
+	w.scanSealed()
+	verifrt.Reach("c04-end")
+}
+
+func ZzC04RaceB1() { zzC04Race(1) }
+func ZzC04RaceB2() { zzC04Race(2) }
